@@ -183,8 +183,8 @@ func curReq(ops []HistOp, at HistOp) string {
 func GenHist(id int, rng *rand.Rand) HistScenario {
 	sc := HistScenario{Scen: id, Names: HistNameOrder[rng.Intn(len(HistNameOrder))], TodayOnly: rng.Intn(2) == 0, Src: "random"}
 	type run struct {
-		dag string
-		nst int
+		dag  string
+		nst  int
 		aged bool
 	}
 	runs := map[string]*run{}
